@@ -658,6 +658,9 @@ def e2e_prompt(case):
                     b.complete_state.go_to_index(i % len(cl))
                 if case.get("verror") is not None and i == len(texts) - 1:
                     b.validation_error = ValidationError(0, case["verror"])
+                if case.get("keybuf"):
+                    from prompt_toolkit.key_binding.key_processor import KeyPress
+                    app.key_processor.key_buffer = [KeyPress("x", case["keybuf"])]
                 if case.get("height_known", True):
                     app.renderer.report_absolute_cursor_row(case.get("cpr_row", 1))
                 app.renderer.render(app, app.layout)
@@ -809,6 +812,13 @@ def ast_scan():
             # cell stores
             if rel.startswith("layout" + os.sep) or rel == "renderer.py":
                 v += scan_cell_stores(tree, rel, parents)
+    # the pending-key display (_show_key_processor_key_buffer) builds a cell from KeyPress.data when
+    # get_cwidth(data) == 1; multi-character strings bypass display_mappings, so no input sequence of
+    # width 1 may contain a control character other than ESC (which the writer replaces)
+    from prompt_toolkit.input.ansi_escape_sequences import ANSI_SEQUENCES
+    for k in ANSI_SEQUENCES:
+        if len(k) > 1 and get_cwidth(k) == 1 and has_control(k.replace("\x1b", "")):
+            bad("multi-character key data of width 1 would be displayed unmapped", repr(k))
     # dynamic counterpart of the _CHAR_CACHE pin
     c = _CHAR_CACHE["\x1b", "x"]
     if type(c) is not Char or c.char != Char("\x1b", "x").char:
@@ -1010,7 +1020,9 @@ def cases(tier, rng):
             s = ""
         yield {"kind": "str", "s": s, "style": rng.choice(STYLES)}
     # ---- Vt100_Output.write
-    yield {"kind": "write", "ops": [chr(i) for i in range(0, 0x100)] + ["\x1b\x1b", "", "a\x1bb\x1b"]}
+    yield {"kind": "write", "ops": ["\x1b\x1b", "", "a\x1bb\x1b", "\x1b[2J\x1b]0;t\x07"]}
+    for lo in range(0, 0x100, 32):
+        yield {"kind": "write", "ops": [chr(i) for i in range(lo, lo + 32)]}
     for _ in range(100 if quick else 3000):
         yield {"kind": "write", "ops": [rand_hostile(rng, rng.randrange(0, 12)) for _ in range(rng.randrange(1, 5))]}
     # ---- print_formatted_text
@@ -1123,7 +1135,8 @@ def gen_e2e_prompt(rng, i):
         "verror": rand_hostile(rng, 6) if rng.random() < 0.3 else None,
         "multiline": rng.random() < 0.7, "wrap": rng.random() < 0.7,
         "rows": rng.choice([5, 10, 24]), "cols": rng.choice([10, 20, 40, 80]),
-        "height_known": rng.random() < 0.8, "cursor": rng.randrange(0, 30)}
+        "height_known": rng.random() < 0.8, "cursor": rng.randrange(0, 30),
+        "keybuf": rng.choice([None, None, "j", "\x1b", "\x9b", "世", "\x01", "\x7f", "é"])}
     if rng.random() < 0.3:
         c["texts"] = [c["texts"][0] + "\n" + rand_hostile(rng, 10) + "\n" + rand_hostile(rng, 60)]
     return c
